@@ -357,8 +357,11 @@ class Sym:
                 for v, b in t["targets"]:
                     if consistent(st.conds, e, ("eq", v)):
                         choices.append((("eq", v), b))
-                if consistent(st.conds, e, ("notin", tuple(tvals))):
-                    choices.append((("notin", tuple(tvals)), t["otherwise"]))
+                oth = ("notin", tuple(tvals))
+                if e[0] == "discr" and len(tvals) == 1 and tvals[0] in (0, 1) and self._two_variants(e[2] if len(e) > 2 else None):
+                    oth = ("eq", 1 - tvals[0])       # the only other variant of a two-variant enum
+                if consistent(st.conds, e, oth):
+                    choices.append((oth, t["otherwise"]))
                 # an `otherwise` that is an unreachable block is not a real choice
                 choices = [(c, b) for c, b in choices if not (body.blocks[b]["term"]["k"] == "unreachable" and not body.blocks[b]["stmts"])]
                 if not choices:
@@ -435,6 +438,19 @@ class Sym:
             # unknown terminator
             self._finish(st, "other:" + k, None, out)
             return
+
+    def _two_variants(self, ty):
+        if not ty:
+            return False
+        base = ty.split("<")[0]
+        if base in ("std::option::Option", "std::result::Result", "std::task::Poll", "std::ops::ControlFlow", "core::option::Option",
+                    "core::result::Result", "core::task::Poll", "core::ops::ControlFlow"):
+            return True
+        for p_, a in self.facts.adts.items():
+            if a["kind"] == "Enum" and (p_ == base or p_.endswith("::" + base.split("::")[-1])) and len(a["variants"]) == 2:
+                ds = [v["discr"] if v["discr"] is not None else i for i, v in enumerate(a["variants"])]
+                return sorted(ds) == [0, 1]
+        return False
 
     def _variant_discr(self, adt, vname):
         a = self.facts.adts.get(adt)
